@@ -206,6 +206,9 @@ func (g *FnGen) applyContract(s *State, fc *FuncContract, ct *callTarget, args [
 	// the callee's footprint must lie inside ours
 	g.checkCallFrame(s, fc, env, site)
 	// havoc
+	if fc.Pure && fc.Fresh {
+		panic(genErr("contract of %s is both pure and fresh: a pure callee allocates nothing (contradictory assumption)", ct.key))
+	}
 	if !fc.Pure {
 		n := g.fresh("next", "Int")
 		g.assume(s, app(">=", n, s.next))
@@ -244,6 +247,20 @@ func (g *FnGen) applyContract(s *State, fc *FuncContract, ct *callTarget, args [
 		gd := g.c.ghosts[name]
 		s.ghosts[name] = g.fresh("G_"+name+"_c", g.ghostSort(gd))
 	}
+	if !fc.Pure {
+		// objects the callee allocated: their cells, too, hold references below the new allocation frontier
+		havocked := map[string]bool{}
+		for _, k := range hl {
+			havocked[k] = true
+		}
+		for _, k := range []string{"Ref", "Slice", "Iface"} {
+			if _, ok := s.heaps[k]; ok && !havocked[k] {
+				if c := closedHeapAxiom(g.heap(s, k), k, s.next); c != "" {
+					fr = append(fr, c)
+				}
+			}
+		}
+	}
 	g.assume(s, and(fr...))
 	outs := g.setResults(s, res, results, nil, shortFn(ct.key))
 	penv := g.contractEnv(fc, ct, s, pre, args)
@@ -268,6 +285,10 @@ func (g *FnGen) applyContract(s *State, fc *FuncContract, ct *callTarget, args [
 		ens = append(ens, penv.boolExpr(e.E))
 	}
 	g.assume(s, and(ens...))
+	// an assumed contract (extern / trusted) must not make its own continuation unreachable: cover before and after
+	if (fc.Extern || fc.Trusted) && (len(fc.Ensures) > 0 || fc.Fresh) {
+		g.cover = append(g.cover, coverPoint{fmt.Sprintf("before-%s", site), pre.pc}, coverPoint{fmt.Sprintf("after-%s", site), s.pc})
+	}
 	return outs
 }
 
